@@ -142,4 +142,44 @@ theorem shift_close_inv (t : Table) (ps : PipeSet) (p q q' : Nat)
     simp only [PipeSet.shiftClose, Table.close] <;>
     refine ⟨hqq, ?_, ?_, ?_, ?_⟩ <;> grind [Table.set]
 
+/-! ### lowest-unused allocation (what the driver and `Process::open_fd` do) -/
+
+theorem minUnused_spec (t : Table) (fuel lo : Nat) (h : ∃ fd : Nat, lo ≤ fd ∧ fd < lo + fuel ∧ t fd = none) :
+    ∃ r : Nat, t.minUnused fuel lo = r ∧ t r = none ∧ lo ≤ r ∧ r < lo + fuel := by
+  induction fuel generalizing lo with
+  | zero => obtain ⟨fd, h1, h2, _⟩ := h; omega
+  | succ f ih =>
+    unfold Table.minUnused
+    by_cases hm : (t lo).isNone = true
+    · rw [if_pos hm]
+      exact ⟨lo, rfl, by simpa using hm, Nat.le_refl _, by omega⟩
+    · rw [if_neg hm]
+      obtain ⟨fd, h1, h2, h3⟩ := h
+      have hne : fd ≠ lo := fun e => by subst e; simp [h3] at hm
+      obtain ⟨r, e, h4, h5, h6⟩ := ih (lo + 1) ⟨fd, by omega, by omega, h3⟩
+      exact ⟨r, e, h4, by omega, by omega⟩
+
+theorem alloc2_spec (t : Table) (h : ∃ a b : Nat, a < b ∧ b < 64 ∧ t a = none ∧ t b = none) :
+    ∃ r w : Nat, alloc2 t = (r, w) ∧ r ≠ w ∧ t r = none ∧ t w = none := by
+  obtain ⟨a, b, hab, hb, ha0, hb0⟩ := h
+  unfold alloc2
+  simp only
+  obtain ⟨r, er, h1, _, _⟩ := minUnused_spec t 64 0 ⟨a, by omega, by omega, ha0⟩
+  rw [er]
+  have h2 : ∃ fd : Nat, 0 ≤ fd ∧ fd < 0 + 64 ∧ (t.set r (some Ent.file)) fd = none := by
+    by_cases e : r = a
+    · refine ⟨b, by omega, by omega, ?_⟩
+      have : b ≠ r := by omega
+      simp [Table.set, hb0, this]
+    · refine ⟨a, by omega, by omega, ?_⟩
+      have : a ≠ r := fun x => e x.symm
+      simp [Table.set, ha0, this]
+  obtain ⟨w, ew, h3, _, _⟩ := minUnused_spec (t.set r (some Ent.file)) 64 0 h2
+  rw [ew]
+  have hwr : w ≠ r := by
+    intro e
+    subst e
+    simp [Table.set] at h3
+  exact ⟨r, w, rfl, fun e => hwr e.symm, h1, by simpa [Table.set, hwr] using h3⟩
+
 end YashModel.Pipe
